@@ -130,6 +130,11 @@ func (ctx *BrokerContext) Broker() {
 					ctx.metrics.promMetrics.AvailableProxies.With(prometheus.Labels{"nat": request.natType, "type": request.proxyType}).Dec()
 					delete(ctx.idToSnowflake, snowflake.id)
 					close(request.offerChannel)
+				} else {
+					// A client popped this snowflake just before the timeout
+					// fired and is about to send its offer: pass it on, otherwise
+					// both the client and the proxy poll would block forever.
+					request.offerChannel <- <-snowflake.offerChannel
 				}
 			}
 		}(request)
